@@ -12,6 +12,7 @@ import (
 	"github.com/ory/keto/internal/namespace/ast"
 	"github.com/ory/keto/internal/relationtuple"
 	"github.com/ory/keto/internal/x"
+	"github.com/ory/keto/internal/x/graph"
 	"github.com/ory/keto/ketoapi"
 )
 
@@ -27,6 +28,14 @@ func toTreeNodeType(op ast.Operator) ketoapi.TreeNodeType {
 		return ketoapi.TreeNodeIntersection
 	default:
 		return ketoapi.TreeNodeUnion
+	}
+}
+
+// withFreshVisited runs f with its own, empty visited set (see
+// graph.ResetVisited).
+func withFreshVisited(f checkgroup.CheckFunc) checkgroup.CheckFunc {
+	return func(ctx context.Context, resultCh chan<- checkgroup.Result) {
+		f(graph.ResetVisited(ctx), resultCh)
 	}
 }
 
@@ -97,31 +106,38 @@ func (e *Engine) checkSubjectSetRewrite(
 			continue
 		}
 
+		// The operands of an intersection must be evaluated independently of
+		// each other: each gets its own visited set.
+		ctx, scoped := ctx, func(f checkgroup.CheckFunc) checkgroup.CheckFunc { return f }
+		if rewrite.Operation == ast.OperatorAnd {
+			ctx, scoped = graph.ResetVisited(ctx), withFreshVisited
+		}
+
 		switch c := child.(type) {
 
 		case *ast.TupleToSubjectSet:
-			checks = append(checks, checkgroup.WithEdge(checkgroup.Edge{
+			checks = append(checks, scoped(checkgroup.WithEdge(checkgroup.Edge{
 				Tuple: *tuple,
 				Type:  ketoapi.TreeNodeTupleToSubjectSet,
-			}, e.checkTupleToSubjectSet(tuple, c, restDepth)))
+			}, e.checkTupleToSubjectSet(tuple, c, restDepth))))
 
 		case *ast.ComputedSubjectSet:
-			checks = append(checks, checkgroup.WithEdge(checkgroup.Edge{
+			checks = append(checks, scoped(checkgroup.WithEdge(checkgroup.Edge{
 				Tuple: *tuple,
 				Type:  ketoapi.TreeNodeComputedSubjectSet,
-			}, e.checkComputedSubjectSet(ctx, tuple, c, restDepth)))
+			}, e.checkComputedSubjectSet(ctx, tuple, c, restDepth))))
 
 		case *ast.SubjectSetRewrite:
-			checks = append(checks, checkgroup.WithEdge(checkgroup.Edge{
+			checks = append(checks, scoped(checkgroup.WithEdge(checkgroup.Edge{
 				Tuple: *tuple,
 				Type:  toTreeNodeType(c.Operation),
-			}, e.checkSubjectSetRewrite(ctx, tuple, c, restDepth-1)))
+			}, e.checkSubjectSetRewrite(ctx, tuple, c, restDepth-1))))
 
 		case *ast.InvertResult:
-			checks = append(checks, checkgroup.WithEdge(checkgroup.Edge{
+			checks = append(checks, scoped(checkgroup.WithEdge(checkgroup.Edge{
 				Tuple: *tuple,
 				Type:  ketoapi.TreeNodeNot,
-			}, e.checkInverted(ctx, tuple, c, restDepth)))
+			}, e.checkInverted(ctx, tuple, c, restDepth))))
 
 		default:
 			return checkNotImplemented
@@ -143,6 +159,10 @@ func (e *Engine) checkInverted(
 		e.d.Logger().Debug("reached max-depth, therefore this query will not be further expanded")
 		return checkgroup.UnknownMemberFunc
 	}
+
+	// A negated expression must not skip a subject set because some other
+	// branch of the check already visited it: it gets its own visited set.
+	ctx = graph.ResetVisited(ctx)
 
 	e.d.Logger().
 		WithField("request", tuple.String()).
@@ -179,6 +199,8 @@ func (e *Engine) checkInverted(
 	default:
 		return checkNotImplemented
 	}
+
+	check = withFreshVisited(check)
 
 	return func(ctx context.Context, resultCh chan<- checkgroup.Result) {
 		// buffered, so that the inner check can exit if the context is
